@@ -64,6 +64,16 @@ class Point:
         return self.syms[name]
 
     def iv(self, name):
+        if isinstance(name, str) and name.startswith("@") and name in __import__("pst.core.sym", fromlist=["x"]).INDEX_EXPRS:
+            # the value of its position expression HERE (it may mention index variables that a surrounding sum is stepping
+            # through): never remembered
+            from .sym import INDEX_EXPRS as _IX
+            try:
+                v = ev(_IX[name], self)
+                if isinstance(v, (int, float)) and not isinstance(v, bool) and v == v and abs(v) != float("inf"):
+                    return int(round(v))
+            except (NotEvaluable, RecursionError):
+                pass
         if name not in self.ivs and isinstance(name, str) and name.startswith("@"):
             # a pseudo index variable that stands for a data-dependent index expression (arrays.intern_index): its value
             # is the value of that expression at this point, whenever it can be evaluated
